@@ -22,6 +22,7 @@ mod sockopt;
 mod time;
 mod timed;
 mod trap;
+mod uring;
 
 pub fn lookup(name: &str) -> Option<AreaFn> {
     match name {
@@ -44,6 +45,7 @@ pub fn lookup(name: &str) -> Option<AreaFn> {
         "beans" => Some(beans::run),
         "grow" => Some(grow::run),
         "trap" => Some(trap::run),
+        "uring" => Some(uring::run),
         _ => None,
     }
 }
